@@ -413,6 +413,9 @@ pub struct Script {
     pub start_wall_ns: i128,
     pub metrics_fail: bool,
     pub log_enabled: bool,
+    /// the embedder changes the shared app set between start() and the first poll of the stream: (app index, 0 = empty
+    /// the id, 1 = set the version to 0)
+    pub spoil_app_after_start: Option<(usize, u8)>,
 }
 
 impl Default for Script {
@@ -438,6 +441,7 @@ impl Default for Script {
             start_wall_ns: 1_700_000_000_000_000_000,
             metrics_fail: false,
             log_enabled: false,
+            spoil_app_after_start: None,
         }
     }
 }
